@@ -1674,4 +1674,135 @@ theorem selectResult_movedSpec {p : Proj} (h : Partition p) (set : List String) 
     have := mem_upTo_sorted (y := d.1) srt ndp hn
     simp only [this, mem_unselected, and_assoc]
 
+/-! ## the iterated saturation of the spec reaches its fixed point within `len(services)` rounds -/
+
+theorem nodup_eraseDups (l : List String) : l.eraseDups.Nodup := by
+  suffices ∀ n (l : List String), l.length ≤ n → l.eraseDups.Nodup from this _ l (Nat.le_refl _)
+  intro n
+  induction n with
+  | zero => intro l h; cases l <;> simp_all
+  | succ n ih =>
+    intro l h
+    cases l with
+    | nil => simp
+    | cons a as =>
+      rw [List.eraseDups_cons, List.nodup_cons]
+      refine ⟨fun hm => ?_, ih _ ?_⟩
+      · rw [List.mem_eraseDups, List.mem_filter] at hm
+        simp at hm
+      · have := List.length_filter_le (fun b => !b == a) as
+        simp only [List.length_cons] at h
+        omega
+
+/-- closed under the successor lists -/
+def SuccClosed (svcs : AL Svc) (pol : Policy) (S : List String) : Prop := ∀ x ∈ S, ∀ y ∈ succ svcs pol x, y ∈ S
+
+theorem mem_expand {svcs : AL Svc} {pol : Policy} {S : List String} {x : String} :
+    x ∈ expand svcs pol S ↔ x ∈ S ∨ ∃ a ∈ S, x ∈ succ svcs pol a := by
+  unfold expand
+  rw [List.mem_eraseDups, List.mem_append, List.mem_flatMap]
+
+theorem nodup_expand (svcs : AL Svc) (pol : Policy) (S : List String) : (expand svcs pol S).Nodup :=
+  nodup_eraseDups _
+
+theorem succ_subset_keys {svcs : AL Svc} {pol : Policy} {x y : String} (h : y ∈ succ svcs pol x) : y ∈ keys svcs := by
+  cases pol with
+  | deps =>
+    simp only [succ] at h
+    cases hs : lookup x svcs with
+    | none => simp [hs] at h
+    | some s => simp only [hs, List.mem_filter, decide_eq_true_eq] at h; exact h.2
+  | dependents =>
+    simp only [succ] at h
+    by_cases hx : x ∈ keys svcs
+    · simp only [hx, if_true] at h
+      exact (keys_filter_sublist _ svcs).subset h
+    · simp [hx] at h
+  | ignore => simp [succ] at h
+
+theorem expand_of_closed {svcs : AL Svc} {pol : Policy} {S : List String} (h : SuccClosed svcs pol S) (x : String) :
+    x ∈ expand svcs pol S ↔ x ∈ S := by
+  rw [mem_expand]
+  exact ⟨fun a => a.elim id (fun ⟨b, hb, hx⟩ => h b hb x hx), .inl⟩
+
+theorem succClosed_closureN {svcs : AL Svc} {pol : Policy} (k : Nat) {S : List String} (h : SuccClosed svcs pol S) :
+    SuccClosed svcs pol (closureN svcs pol k S) ∧ ∀ x, x ∈ closureN svcs pol k S ↔ x ∈ S := by
+  induction k generalizing S with
+  | zero => exact ⟨h, fun _ => Iff.rfl⟩
+  | succ k ih =>
+    have hc : SuccClosed svcs pol (expand svcs pol S) := by
+      intro x hx y hy
+      rw [expand_of_closed h] at hx ⊢
+      exact h x hx y hy
+    have := ih hc
+    exact ⟨this.1, fun x => (this.2 x).trans (expand_of_closed h x)⟩
+
+theorem mem_closureN_of_mem {svcs : AL Svc} {pol : Policy} (k : Nat) {S : List String} {x : String} (h : x ∈ S) :
+    x ∈ closureN svcs pol k S := by
+  induction k generalizing S with
+  | zero => exact h
+  | succ k ih => exact ih (mem_expand.2 (.inl h))
+
+theorem length_expand_lt {svcs : AL Svc} {pol : Policy} {S : List String} (nd : S.Nodup)
+    (h : ¬SuccClosed svcs pol S) : S.length < (expand svcs pol S).length := by
+  have : ∃ x ∈ S, ∃ y ∈ succ svcs pol x, y ∉ S := by
+    apply Classical.byContradiction
+    intro c
+    apply h
+    intro x hx y hy
+    apply Classical.byContradiction
+    intro hn
+    exact c ⟨x, hx, y, hy, hn⟩
+  obtain ⟨x, hx, y, hy, hn⟩ := this
+  have nd' : (y :: S).Nodup := List.nodup_cons.2 ⟨hn, nd⟩
+  have sub : (y :: S) ⊆ expand svcs pol S := by
+    intro z hz
+    rcases List.mem_cons.1 hz with e | e
+    · exact e ▸ mem_expand.2 (.inr ⟨x, hx, hy⟩)
+    · exact mem_expand.2 (.inl e)
+  have := nd'.length_le_of_subset sub
+  simp only [List.length_cons] at this
+  omega
+
+/-- pigeonhole: a duplicate-free set of service names cannot grow more than `len(services)` times -/
+theorem saturate {svcs : AL Svc} {pol : Policy} :
+    ∀ (k : Nat) (S : List String), S.Nodup → (∀ x ∈ S, x ∈ keys svcs) → (keys svcs).length < k + S.length →
+      SuccClosed svcs pol (closureN svcs pol k S) := by
+  intro k
+  induction k with
+  | zero =>
+    intro S nd sub hlt
+    have := nd.length_le_of_subset (fun x hx => sub x hx)
+    omega
+  | succ k ih =>
+    intro S nd sub hlt
+    by_cases hc : SuccClosed svcs pol S
+    · exact (succClosed_closureN (k + 1) hc).1
+    · have hl := length_expand_lt nd hc
+      refine ih (expand svcs pol S) (nodup_expand _ _ _) (fun x hx => ?_) (by omega)
+      rcases mem_expand.1 hx with a | ⟨a, _, ha⟩
+      · exact sub x a
+      · exact succ_subset_keys ha
+
+/-- the closure computed by the oracle is always saturated: the run-time check `Closed` cannot fail -/
+theorem closure_closed (svcs : AL Svc) (pol : Policy) (roots : List String) :
+    Closed svcs pol roots (closure svcs pol roots) := by
+  unfold closure
+  generalize hS : (roots.filter (fun r => r ∈ keys svcs)).eraseDups = S0
+  have mem0 : ∀ x, x ∈ S0 ↔ x ∈ roots ∧ x ∈ keys svcs := by
+    intro x; rw [← hS, List.mem_eraseDups, List.mem_filter]; simp
+  have nd0 : S0.Nodup := hS ▸ nodup_eraseDups _
+  refine ⟨fun r hr hk => mem_closureN_of_mem _ ((mem0 r).2 ⟨hr, hk⟩), ?_⟩
+  have : SuccClosed svcs pol (closureN svcs pol svcs.length S0) := by
+    cases h0 : S0 with
+    | nil => exact (succClosed_closureN _ (fun x hx => absurd hx List.not_mem_nil)).1
+    | cons a t =>
+      rw [← h0]
+      apply saturate _ _ nd0 (fun x hx => ((mem0 x).1 hx).2)
+      have : (keys svcs).length = svcs.length := by simp [keys]
+      rw [h0] at *
+      simp only [List.length_cons]
+      omega
+  exact this
+
 end CV.Sel
